@@ -261,7 +261,7 @@ def run_machine(draws, state, tier):
                 by_arg.setdefault(a.name, []).append((tname, fname))
         shared_args = sorted(a for a, fs in by_arg.items() if len(fs) >= 2)
         for step in range(n_ops):
-            op = st.weighted((5, 3, 1, 1, 2 if shared_args else 0), "op")
+            op = st.weighted((5, 3, 1, 1, 2 if shared_args else 0, 1), "op")
             # 0 reassign, 1 check(validate), 2 check(query), 3 shuffled
             # rebuild, 4 one callable registered on several fields
             if op == 4:
@@ -323,6 +323,43 @@ def run_machine(draws, state, tier):
                         "%s raised %r" % (route, err)))
                     break
                 res.count("reassign:" + route)
+                continue
+            if op == 5:
+                # the verdict of a clone / of an extension of the live schema
+                # (a new object: nothing memoised on the live schema applies)
+                how = ("clone", "extend")[st.below(2, "derived")]
+                seq.append(("derived-check", how))
+                try:
+                    if how == "clone":
+                        got = _verdict(live.clone())
+                    else:
+                        from py_gql.sdl import extend_schema
+                        q = live.query_type.name
+                        doc = "extend type %s { ext_c13_%d: Int }" % (q, step)
+                        got = _verdict(extend_schema(live, doc))
+                except SchemaValidationError as err:
+                    got = ("invalid",
+                           tuple(sorted(str(e) for e in err.errors)))
+                try:
+                    fresh = _fresh(sdl, model)
+                    if how == "extend":
+                        fresh = extend_schema(fresh, doc)
+                    want = _verdict(fresh)
+                except SchemaValidationError as err:
+                    want = ("invalid",
+                            tuple(sorted(str(e) for e in err.errors)))
+                res.count("derived_checks")
+                if got != want:
+                    V.append(Violation(
+                        P, "stale_verdict", ("derived-" + how,
+                                             "accepted-invalid"
+                                             if got[0] == "valid"
+                                             else "differs"),
+                        "step %d: the %s of the live schema is %s %r, a "
+                        "fresh schema with the same assignment is %s %r" % (
+                            step, how, got[0], got[1][:2], want[0],
+                            want[1][:2])))
+                    break
                 continue
             if op in (1, 2):
                 via = "validate" if op == 1 else "query"
